@@ -607,6 +607,7 @@ class SymtableCodeGen(AbstractCodeGen):
         self._importMap.clear()
         self._out = {}  # should be new object, do not use `clear` method
         self._moduleRevision = None
+        self.fakeidx = SymtableCodeGen.fakeidx
         self.moduleName[0], moduleOid, imports, declarations = ast
 
         out, importedModules = self.genImports(imports or {})
